@@ -202,6 +202,11 @@ class Batch:
         cur = frm
         idx = 0
         while cur < to:
+            if len(self.crashes) + len(self.infra) + getattr(self, 'restarts', 0) > 60:
+                # hundreds of runs have already killed their worker or not come back: more of the
+                # same adds nothing (a changed tree that recurses without end, for example), the
+                # ones at hand are analysed
+                return out
             path = os.path.join(self.ctx['tmp'], 'out-%s-%d-%d-%d.jsonl' % (self.label, frm, cur, idx))
             idx += 1
             if os.path.exists(path):
@@ -222,6 +227,7 @@ class Batch:
             done = set(r['run'] for r in ends)
             rst = [r for r in recs if r.get('ev') == 'restart']
             if rc == 0 and rst and not is_race(err):
+                self.restarts = getattr(self, 'restarts', 0) + 1
                 cur = rst[-1]['next']
                 continue
             if rc == 0 and not is_race(err):
@@ -557,8 +563,13 @@ def _check(ctx, prop, tier, cfg, tcfg, seed, params, known, t_start):
             reported.append({'sig': sig, 'known': False, 'count': len(occ)})
             exit_code = 1
             continue
-        mintape, tried = shrink(ctx, o['binary'], prop, tier, seed, o['run'], o['params'], tape, sig, o['env'],
-                                budget_s=tcfg.get('shrink_budget_s', 120) if n_unknown == 0 else 25)
+        if 'does-not-terminate' in sig:
+            # every reproducing candidate costs seconds to a minute (that is the violation): the
+            # schedule is reported as recorded
+            mintape, tried = tape, 0
+        else:
+            mintape, tried = shrink(ctx, o['binary'], prop, tier, seed, o['run'], o['params'], tape, sig, o['env'],
+                                    budget_s=tcfg.get('shrink_budget_s', 120) if n_unknown == 0 else 25)
         sigm, recm, errm = run_tape(ctx, o['binary'], prop, tier, seed, o['run'], o['params'], mintape, o['env'])
         if sigm != sig:
             mintape = tape
